@@ -67,3 +67,76 @@ pub fn res_bytes(r: Result<Vec<u8>, String>) -> String {
 pub fn res_string(r: Result<String, String>) -> String {
     match r { Ok(s) => ok_bytes(s.as_bytes()), Err(_) => "err".to_string() }
 }
+
+// ---- canonical one-line renderings of shared data types (same as lean/RwsDriver/Common.lean)
+use crate::header::Header;
+use crate::request::Request;
+use crate::response::Response;
+use crate::range::{ContentRange, Range};
+use crate::body::multipart_form_data::Part;
+
+pub fn show_header(h: &Header) -> String { format!("{}:{}", hex(h.name.as_bytes()), hex(h.value.as_bytes())) }
+pub fn show_headers(hs: &[Header]) -> String {
+    if hs.is_empty() { "-".into() } else { hs.iter().map(show_header).collect::<Vec<_>>().join(",") }
+}
+pub fn show_request(r: &Request) -> String {
+    format!("{} {} {} {} {}", hex(r.method.as_bytes()), hex(r.request_uri.as_bytes()), hex(r.http_version.as_bytes()),
+            show_headers(&r.headers), hex(&r.body))
+}
+pub fn show_part(p: &Part) -> String { format!("{};{}", show_headers(&p.headers), hex(&p.body)) }
+pub fn show_parts(ps: &[Part]) -> String {
+    if ps.is_empty() { "-".into() } else { ps.iter().map(show_part).collect::<Vec<_>>().join("|") }
+}
+pub fn show_content_range(c: &ContentRange) -> String {
+    format!("{};{};{};{};{};{}", hex(c.unit.as_bytes()), c.range.start, c.range.end, hex(c.size.as_bytes()),
+            hex(c.content_type.as_bytes()), hex(&c.body))
+}
+pub fn show_content_ranges(cs: &[ContentRange]) -> String {
+    if cs.is_empty() { "-".into() } else { cs.iter().map(show_content_range).collect::<Vec<_>>().join("|") }
+}
+pub fn show_response(r: &Response) -> String {
+    format!("{} {} {} {} {}", hex(r.http_version.as_bytes()), r.status_code, hex(r.reason_phrase.as_bytes()),
+            show_headers(&r.headers), show_content_ranges(&r.content_range_list))
+}
+
+/// a text field: hex of UTF-8; None when the hex is bad, Err(()) when not UTF-8
+pub fn text(s: &str) -> Option<Result<String, ()>> {
+    let b = unhex(s)?;
+    Some(String::from_utf8(b).map_err(|_| ()))
+}
+pub fn read_header(s: &str) -> Option<Header> {
+    let (n, v) = s.split_once(':')?;
+    Some(Header { name: String::from_utf8(unhex(n)?).ok()?, value: String::from_utf8(unhex(v)?).ok()? })
+}
+pub fn read_headers(s: &str) -> Option<Vec<Header>> {
+    if s == "-" { return Some(vec![]); }
+    s.split(',').map(read_header).collect()
+}
+pub fn read_request(f: &[String]) -> Option<Request> {
+    if f.len() != 5 { return None; }
+    Some(Request { method: String::from_utf8(unhex(&f[0])?).ok()?, request_uri: String::from_utf8(unhex(&f[1])?).ok()?,
+        http_version: String::from_utf8(unhex(&f[2])?).ok()?, headers: read_headers(&f[3])?, body: unhex(&f[4])? })
+}
+pub fn read_part(s: &str) -> Option<Part> {
+    let (h, b) = s.split_once(';')?;
+    Some(Part { headers: read_headers(h)?, body: unhex(b)? })
+}
+pub fn read_parts(s: &str) -> Option<Vec<Part>> {
+    if s == "-" { return Some(vec![]); }
+    s.split('|').map(read_part).collect()
+}
+pub fn read_content_range(s: &str) -> Option<ContentRange> {
+    let p: Vec<&str> = s.split(';').collect();
+    if p.len() != 6 { return None; }
+    Some(ContentRange { unit: String::from_utf8(unhex(p[0])?).ok()?, range: Range { start: p[1].parse().ok()?, end: p[2].parse().ok()? },
+        size: String::from_utf8(unhex(p[3])?).ok()?, content_type: String::from_utf8(unhex(p[4])?).ok()?, body: unhex(p[5])? })
+}
+pub fn read_content_ranges(s: &str) -> Option<Vec<ContentRange>> {
+    if s == "-" { return Some(vec![]); }
+    s.split('|').map(read_content_range).collect()
+}
+pub fn read_response(f: &[String]) -> Option<Response> {
+    if f.len() != 5 { return None; }
+    Some(Response { http_version: String::from_utf8(unhex(&f[0])?).ok()?, status_code: f[1].parse().ok()?,
+        reason_phrase: String::from_utf8(unhex(&f[2])?).ok()?, headers: read_headers(&f[3])?, content_range_list: read_content_ranges(&f[4])? })
+}
